@@ -829,7 +829,7 @@ Lemma exec_cops_J cs : forall added st pu st' pu',
 Proof.
   induction cs as [|c r IH]; intros added st pu st' pu' [W [ND AO]] G E; simpl in E.
   - inversion E; subst. exists added. split; [|split]; assumption.
-  - destruct c as [o|k v|k]; simpl in E, G.
+  - destruct c as [o|k v|k|i v]; simpl in E, G; [| | |discriminate].
     + destruct (exec_op NoFault st o) as [st1|] eqn:X; [|discriminate].
       eapply IH; [|exact G|exact E]. split; [|split]; auto. eapply exec_op_wf; eauto.
     + destruct (lookup_root (roots st) k) eqn:LR; [discriminate|].
